@@ -203,6 +203,19 @@ Definition aconcat {V} (axis : nat) (a : arr V) (rest : list (arr V)) : arr V :=
   mkarr (concat_shape axis (shape a) (map shape rest)) (concat_get axis a rest).
 
 (* ---------------------------------------------------------------------- *)
+(* stack along a new axis [axis] (0 <= axis <= ndim): the new axis has one
+   position per stacked array *)
+Definition insert_at {A} (k : nat) (v : A) (l : list A) : list A := firstn k l ++ v :: skipn k l.
+Definition remove_at {A} (k : nat) (l : list A) : list A := firstn k l ++ skipn (S k) l.
+
+Definition astack {V} (axis : nat) (a : arr V) (rest : list (arr V)) : arr V :=
+  mkarr (insert_at axis (Z.of_nat (S (length rest))) (shape a))
+        (fun out => get (nth (Z.to_nat (nth axis out 0)) (a :: rest) a) (remove_at axis out)).
+
+(* a constant array (ones / zeros / full) *)
+Definition afull {V} (shp : list Z) (v : V) : arr V := mkarr shp (fun _ => v).
+
+(* ---------------------------------------------------------------------- *)
 (* rechunk: chunks are metadata; the denoted array is unchanged *)
 Definition arechunk {V} (chunks : list (list Z)) (a : arr V) : arr V := a.
 
